@@ -320,7 +320,7 @@ def cc_build(name, driver, sources=(), flags=(), sanitize=True, libs=True, cc="g
         # compile in parallel, one object per source
         procs = []
         for s in sources:
-            o = os.path.join(d, os.path.basename(s) + ".o")
+            o = os.path.join(d, os.path.basename(os.path.dirname(s)) + "_" + os.path.basename(s) + ".o")
             objs.append(o)
             procs.append((s, subprocess.Popen(cmd + ["-c", s, "-o", o], stdout=subprocess.PIPE,
                                               stderr=subprocess.STDOUT, universal_newlines=True)))
